@@ -1239,6 +1239,17 @@ func (self *Fork) doJoin(state MetadataState, getBindings func() MarshalerMap) M
 			self.node.runJoin(self.fqname, self.join_metadata, &res)
 		}
 	} else {
+		if len(self.OutParams().List) > 0 {
+			// The outs which doComplete will parse are a copy of the chunk's.
+			// If they can't be read, it's the chunk which failed and needs to
+			// be re-run, just like when there is a real join.
+			chunk := self.chunks[0]
+			if _, err := chunk.metadata.read(OutsFile,
+				self.node.top.rt.FreeMemBytes()/3); err != nil {
+				chunk.metadata.WriteErrorString(err.Error())
+				return Failed
+			}
+		}
 		if b, err := self.chunks[0].metadata.readRawBytes(OutsFile); err == nil {
 			self.join_metadata.WriteRawBytes(OutsFile, b)
 		} else {
